@@ -83,6 +83,15 @@ func ruleWARSHALL(c *Ctx) {
 		c.Bad(rule, key, f.Pos(), "the two edge tests of Closure are not of the form HasEdge(x, pivot) / HasEdge(pivot, y) with pivot the OUTERMOST loop variable (%s): with the intermediate vertex in an inner loop the result is not the transitive closure", pivot.Comment)
 		return
 	}
+	// the loops are reached for every matrix size: no return before the outermost loop
+	for _, b := range f.Blocks {
+		if len(b.Instrs) == 0 {
+			continue
+		}
+		if _, isRet := b.Instrs[len(b.Instrs)-1].(*ssa.Return); isRet && reachesWithout(f.Blocks[0], b, outer.Header) && f.Blocks[0] != outer.Header {
+			c.Bad(rule, "util/graph.Matrix.Closure:all-sizes", b.Instrs[len(b.Instrs)-1].Pos(), "Closure can return without entering its loops: a special case that skips the computation for some matrix sizes (two vertices that point at each other still need their self loops)")
+		}
+	}
 	if arg(adds[0], 1) == arg(into, 1) && arg(adds[0], 2) == arg(outof, 2) {
 		c.Ok(rule, key, adds[0].Pos(), "Closure tests HasEdge(x, pivot) and HasEdge(pivot, y) with the pivot in the outermost loop and adds (x, y)")
 	} else {
@@ -274,6 +283,40 @@ func ruleLONGESTPATH(c *Ctx) {
 		c.Ok(rule, key+":in-progress", dfs.Pos(), "a vertex is marked -1 while its successors are explored and meeting a -1 vertex sets the cycle flag")
 	} else {
 		c.Bad(rule, key+":in-progress", dfs.Pos(), "the in-progress marker (height = -1: %v) and the cycle flag under height == -1 (%v) do not both exist: a back edge is not recognised as a cycle", marks, cycUnder)
+	}
+	// (c) every vertex is explored: in the loop over all vertices the dfs call lies on every path
+	{
+		visited := false
+		for _, lp := range naturalLoops(f) {
+			var callB *ssa.BasicBlock
+			for b := range lp.Body {
+				for _, ins := range b.Instrs {
+					if call, ok := ins.(*ssa.Call); ok {
+						if g := resolveCallee(call); g == dfs {
+							callB = b
+						}
+					}
+				}
+			}
+			if callB == nil {
+				continue
+			}
+			visited = true
+			skipped := false
+			for _, s := range lp.Header.Succs {
+				if lp.Body[s] && s != callB && reachesWithout(s, lp.Header, callB) {
+					skipped = true
+				}
+			}
+			if skipped {
+				c.Bad(rule, key+":all-vertices", callB.Instrs[0].Pos(), "the loop over the vertices can skip the dfs call for some vertex: a cycle that is not reachable from the explored vertices goes unnoticed and a path is returned for a cyclic graph")
+			} else {
+				c.Ok(rule, key+":all-vertices", callB.Instrs[0].Pos(), "dfs is started from every vertex")
+			}
+		}
+		if !visited {
+			c.Lost(rule, key+":all-vertices", "no loop calling the dfs closure found")
+		}
 	}
 	// (b) in LongestPath: a return of nil governed by the cycle flag dominates the path loop
 	nilRet := false
